@@ -79,6 +79,21 @@ def generate(seed, tier="quick"):
                 arg = "[" + arg + "]"
             f["sites"][sid] = {"op": op, "place": prng_.choice(["direct", "func"]), "arg": arg, "prev": None}
             f["tests"].append({"name": f"test_p{n}", "param": params, "events": [{"t": "cmp", "eid": f"pe{n}", "site": sid, "var": "_p", "style": prng_.choice(["assert", "rec"])}]})
+    qrng = sub(seed, "npscalar")
+    if qrng.random() < 0.2:
+        # values whose comparison operators answer a truthy / falsy object that is not a builtin bool (numpy scalars do that)
+        f = prog["files"][0]
+        for k in range(qrng.randint(1, 2)):
+            n += 1
+            sid = f"np{n}"
+            op = qrng.choice(["eq", "eq", "le", "ge", "item"])
+            old, new = qrng.choice([(2, 2), (2, 3), (3, 2), (1.5, 2.5), (2.5, 1.5)])
+            f["sites"][sid] = {"op": op, "place": qrng.choice(["direct", "func"]) if op != "item" else "direct",
+                               "arg": f"NP({old!r})" if op != "item" else f'{{"k": NP({old!r})}}', "prev": None}
+            e = {"t": "cmp", "eid": f"npe{n}", "site": sid, "vals": [["np", new]], "style": "assert", "reflect": op == "eq" and qrng.random() < 0.3}
+            if op == "item":
+                e["key"], e["cop"] = ["str", "k"], qrng.choice(["eq", "le"])
+            f["tests"].append({"name": f"test_np{n}", "events": [e]})
     nrng = sub(seed, "nested")
     nested = False
     if nrng.random() < 0.2:
